@@ -67,7 +67,10 @@ class PathResult:
 
 
 class Engine:
-    def __init__(self, timeout_ms=10000, max_depth=400, max_paths=20000, nonlinear="nra", logic=None):
+    def __init__(self, timeout_ms=10000, max_depth=400, max_paths=20000, nonlinear="nra", logic=None,
+                 max_task_s=None, max_violations=12):
+        self.deadline = (time.time() + max_task_s) if max_task_s else None
+        self.max_violations = max_violations
         self.timeout_ms = timeout_ms
         self.max_depth = max_depth
         self.max_paths = max_paths
@@ -77,6 +80,7 @@ class Engine:
         self.base_assumptions = []
         self.inputs = {}            # name -> z3 const (insertion ordered)
         self.obligations = []
+        self.ob_times = []
         self.paths = []
         self.stats = {"queries": 0, "solver_s": 0.0, "paths": 0, "paths_cut": 0, "unknown": 0,
                       "branch_points": 0, "infeasible_sides": 0, "exceptions": 0}
@@ -128,17 +132,13 @@ class Engine:
 
     # ------------------------------------------------------------ uninterpreted functions
     def note_uf(self, kind, term):
-        from .values import uf_lemmas
+        from .values import uf_lemmas_for
         lst = self._uf.setdefault(kind, [])
         if any(term.eq(t) for t in lst):
             return
-        lst.append(term)
-        if kind == "SQRT":
-            # arguments that are sums of SQ need the SQ list for SQRT(SQ(a)) = |a|
-            pass
-        # add instantiated axioms involving the new term (all pairs with it)
-        for lem in uf_lemmas({kind: lst}):
+        for lem in uf_lemmas_for(kind, term, lst):
             self.solver.add(lem)
+        lst.append(term)
 
     # ------------------------------------------------------------ solver plumbing
     def _check(self, *extra):
@@ -168,6 +168,10 @@ class Engine:
         if i >= self.max_depth:
             self.stats["paths_cut"] += 1
             raise PathAbort("depth bound")
+        if self.deadline is not None and time.time() > self.deadline and i >= len(self.prefix):
+            self.stats["paths_cut"] += 1
+            self.stats["task_time_budget_exhausted"] = True
+            raise PathAbort("task time budget")
         if i < len(self.prefix):
             taken, forced = self.prefix[i]
         else:
@@ -216,6 +220,19 @@ class Engine:
         """Discharge `claim` under assumptions and the current path condition."""
         from .values import bterm
         claim = bterm(claim)
+        _t0 = time.time()
+        try:
+            return self._prove(name, claim, slack_claim, bound, info)
+        finally:
+            self.ob_times.append((time.time() - _t0, name))
+
+    def _prove(self, name, claim, slack_claim, bound, info):
+        from .values import bterm
+        if self.deadline is not None and time.time() > self.deadline and not z3.is_true(claim):
+            self.stats["unknown"] += 1
+            self.stats["task_time_budget_exhausted"] = True
+            self.obligations.append(Obligation(name, "unknown", self._path_index, info=info))
+            return "unknown"
         if z3.is_true(claim):
             self.obligations.append(Obligation(name, "proved", self._path_index, info=info))
             return "proved"
@@ -299,6 +316,15 @@ class Engine:
                 if not dec:
                     break
                 self.prefix = dec[:-1] + [(False, False)]
+                nviol = sum(1 for o in self.obligations if o.status in ("violated", "exception")
+                            and not (o.info or {}).get("canary"))
+                if nviol >= self.max_violations:
+                    self.stats["stopped_after_violations"] = nviol
+                    break
+                if self.deadline is not None and time.time() > self.deadline:
+                    self.stats["paths_cut"] += 1
+                    self.stats["task_time_budget_exhausted"] = True
+                    break
                 if self._path_index >= self.max_paths:
                     self.stats["paths_cut"] += 1
                     self.stats["path_budget_exhausted"] = True
